@@ -4,7 +4,7 @@ From Coq Require Import Lia.
 
 (** * Configurations *)
 Lemma all_configs_complete : forall cfg, In cfg all_configs.
-Proof. intros [[] [] []]; simpl; auto 10. Qed.
+Proof. intros [[] [] [] []]; vm_compute; auto 20. Qed.
 
 (** * Raised sets *)
 Lemma smem_app s l1 l2 : smem s (l1 ++ l2) = smem s l1 || smem s l2.
@@ -146,7 +146,7 @@ Qed.
 Lemma acts_at_started : forall cfg w, forallb (started_by cfg) (acts_at cfg w) = true.
 Proof.
   intros cfg w. unfold acts_at. rewrite forallb_app. apply andb_true_iff. split.
-  - destruct cfg as [[] m l]; reflexivity.
+  - destruct cfg as [[] m l cd]; reflexivity.
   - apply forallb_forall. intros a Ha. apply filter_In in Ha. exact (proj2 Ha).
 Qed.
 
@@ -161,18 +161,18 @@ Proof. intros cfg w. apply close_leaves_nothing_stuck. apply acts_at_started. Qe
     consumer that has already left: the worker, and the load request waiting for it, stay. *)
 Theorem close_current_strands_delivering_worker : forall cfg,
   stuck sw_pinned (close sw_pinned (open_store cfg (acts_at cfg 11%N))) = [ASyncLoad; AReplWorkerDelivering].
-Proof. intros [[] [] []]; reflexivity. Qed.
+Proof. intros [[] [] [] []]; reflexivity. Qed.
 
 (** A legacy subscriber waits for its caller's context only. *)
 Theorem close_current_strands_legacy_subscriber : forall cfg,
   stuck sw_pinned (close sw_pinned (open_store cfg (acts_at cfg 7%N))) = [ALegacySubscriber].
-Proof. intros [[] [] []]; reflexivity. Qed.
+Proof. intros [[] [] [] []]; reflexivity. Qed.
 
 (** A Load waiting for a block nobody provides runs under its caller's context only. *)
 Theorem close_current_strands_stuck_load : forall cfg,
   stuck sw_pinned (close sw_pinned (open_store cfg (acts_at cfg 18%N))) = [ALoadHeads] /\
   op_class sw_pinned OpInflightLoadStuck = 3%N /\ op_class sw_pinned OpInflightSnapshotStuck = 3%N.
-Proof. intros [[] [] []]; repeat split; reflexivity. Qed.
+Proof. intros [[] [] [] []]; repeat split; reflexivity. Qed.
 
 (** At every other scripted moment nothing is left, also on the pinned tree, in every
     configuration (store-level moments: the store's; instance-level: two databases of any two
@@ -181,7 +181,7 @@ Theorem close_current_other_moments :
   forall cfg cfg' w, In w [0; 1; 2; 3; 4; 5; 6; 8; 9; 10; 12; 13; 14; 15; 16; 17]%N ->
     predicted_leaks sw_pinned [cfg; cfg'] w = [].
 Proof.
-  intros [[] [] []] [[] [] []] w H; simpl in H;
+  intros [[] [] [] []] [[] [] [] []] w H; simpl in H;
     repeat (destruct H as [<- | H]; [vm_compute; reflexivity |]); destruct H.
 Qed.
 
@@ -593,4 +593,93 @@ Proof.
   pose proof (is_child_unique _ _ _ E Hc) as K.
   apply cache_key_injective in K; [| assumption | assumption].
   destruct K as [Er Ep]. destruct Hd as [Hd | Hd]; contradiction.
+Qed.
+
+(** ** A Directory option: where the data is, what Drop destroys *)
+
+(** Drop removes the database's own cache whatever Directory option it was opened with: the
+    cache is loaded from, and destroyed in, the same directory *)
+Lemma drop_removes_own_any_option : forall sw cfg inst opt r p,
+  cf_memory cfg = false -> drop_removes_own sw cfg inst opt r p = true.
+Proof.
+  intros sw cfg inst opt r p Hm. unfold drop_removes_own, drop_removes, cache_dir, destroy_dir.
+  rewrite Hm. cbn [negb andb]. destruct (sw_destroy_own_files sw).
+  - apply key_eqb_spec. reflexivity.
+  - apply is_prefix_refl.
+Qed.
+
+Lemma is_prefix_not_nested : forall a b x y,
+  is_prefix a b = false -> is_prefix b a = false -> is_prefix (a ++ x) (b ++ y) = false.
+Proof.
+  induction a as [|u a IH]; intros b x y Hab Hba; [discriminate Hab |].
+  destruct b as [|v b]; [discriminate Hba |]. simpl in *.
+  destruct (N.eqb u v) eqn:E; [| reflexivity]. simpl in *.
+  assert (N.eqb v u = true) as E' by (rewrite N.eqb_sym; exact E). rewrite E' in Hba. simpl in Hba.
+  apply IH; assumption.
+Qed.
+
+(** ... and a Destroy given ANOTHER directory (neither inside the other) - the option's, for
+    instance, while the cache is the instance directory's - removes nothing of the database: its
+    entries would still be loaded after Drop.  Regression witness for a CacheDestroy that is not
+    given the directory the cache was loaded from. *)
+Lemma destroy_elsewhere_keeps_data : forall sw cfg dir dir' r p,
+  no_dotdot p = true ->
+  is_prefix dir dir' = false -> is_prefix dir' dir = false ->
+  drop_removes sw cfg dir' r p (datastore_key dir r p) = false.
+Proof.
+  intros sw cfg dir dir' r p Hp H1 H2. unfold drop_removes.
+  destruct (cf_memory cfg); [reflexivity |]. cbn [negb andb].
+  rewrite !key_no_dotdot by exact Hp.
+  assert (is_prefix (dir' ++ r :: names p) (dir ++ r :: names p) = false) as K
+      by (apply is_prefix_not_nested; assumption).
+  destruct (sw_destroy_own_files sw); [| exact K].
+  unfold key_eqb. rewrite K. reflexivity.
+Qed.
+
+(** ** The cache manager's table: closing and reopening a database *)
+
+Lemma cycle_usable_registered : forall sw cfg n vc t,
+  sw_load_registered sw = true -> t <> TStale ->
+  forallb (fun u => u) (cycle sw cfg vc n t) = true.
+Proof.
+  intros sw cfg n. induction n as [|n IH]; intros vc t Hs Ht.
+  - destruct t; [| | contradiction]; unfold cycle, open_handle, cm_load; rewrite ?Hs;
+      destruct (lookup_loads_cache cfg vc); reflexivity.
+  - cbn [cycle]. destruct (open_handle sw cfg vc t) as [h t1] eqn:E.
+    assert (h_usable h = true /\ h_wrapped h = true) as [Hu Hw].
+    { unfold open_handle, cm_load in E. rewrite ?Hs in E.
+      destruct t; [| | contradiction]; destruct (lookup_loads_cache cfg vc); simpl in E; inversion E; split; reflexivity. }
+    cbn [forallb]. rewrite Hu. cbn [andb]. apply IH; [exact Hs |].
+    unfold cm_close. rewrite Hw. discriminate.
+Qed.
+
+(** without a Directory option other than the instance's directory the lookup loads the very
+    cache the store gets, which is therefore always the registered wrapper: every incarnation
+    is usable on the tree before the repair of Load too *)
+Lemma cycle_usable_default : forall sw cfg n vc t,
+  cf_customdir cfg = false -> t <> TStale ->
+  forallb (fun u => u) (cycle sw cfg vc n t) = true.
+Proof.
+  intros sw cfg n. induction n as [|n IH]; intros vc t Hc Ht.
+  - unfold cycle, open_handle, lookup_loads_cache. rewrite Hc, orb_true_r.
+    destruct t; [| | contradiction]; reflexivity.
+  - cbn [cycle]. destruct (open_handle sw cfg vc t) as [h t1] eqn:E.
+    assert (h_usable h = true /\ h_wrapped h = true) as [Hu Hw].
+    { unfold open_handle, lookup_loads_cache in E. rewrite Hc, orb_true_r in E.
+      destruct t; [| | contradiction]; simpl in E; inversion E; split; reflexivity. }
+    cbn [forallb]. rewrite Hu. cbn [andb]. apply IH; [exact Hc |].
+    unfold cm_close. rewrite Hw. discriminate.
+Qed.
+
+(** before the repair of Load: a database opened from its address with a Directory option other
+    than the instance's directory gets the bare datastore; its Close leaves a closed cache
+    registered, which the next incarnation is given.  Opened the first time through Create the
+    same happens one incarnation later.  Regression witness. *)
+Lemma cycle_refuted_customdir : forall sw cfg,
+  sw_load_registered sw = false -> cf_customdir cfg = true ->
+  cycle sw cfg false 2 TAbsent = [true; false; true] /\
+  cycle sw cfg true 2 TAbsent = [true; true; false].
+Proof.
+  intros sw cfg Hs Hc. unfold cycle, open_handle, lookup_loads_cache, cm_load, cm_close.
+  rewrite Hs, Hc. split; reflexivity.
 Qed.
